@@ -12,7 +12,7 @@ META = {
 
 def run(ctx):
     return mworld.run_family(
-        ctx, "C03", scenarios=[1, 2], impls=['basicmutable', 'overlay-basic', 'overlay-mutable', 'overlay-empty'],
+        ctx, "C03", scenarios=[1, 2, 5], impls=['basicmutable', 'overlay-basic', 'overlay-mutable', 'overlay-empty'],
         sections=['search'],
         meta_rule='every transition of scenarios 1-2 executed via its shortest prefix on 4 world constructions + random walks; 12 queries per state',
         assumptions=[])
